@@ -62,7 +62,7 @@ def h_seq(ctx, plan):
   sw.set_connection(conn)
   state = dict(miss=128, flags=0, flows=0)
   expect = []     # list of (kind, checker(decoded message)) in order
-  stream = []
+  stream = []; split = []
 
   def reply(cls, xid, fn=None):
     expect.append((cls, xid, fn))
@@ -189,9 +189,14 @@ def h_seq(ctx, plan):
       raise KeyError(kind)
     msg.xid = xid
     stream.append(msg.pack())
-  # ---- feed the bytes, one message per push (segmentation is C02's subject)
-  for b in stream:
-    w._push_receive_data(b)
+    split.append(kind in ('unknown_type', 'long_stats') and i % 2 == 0)
+  # ---- feed the bytes, one message per push (segmentation in general is C02's subject); requests that are rejected from their header alone
+  # also arrive in two TCP segments (5 bytes, then the rest): still exactly one error
+  for b, two in zip(stream, split):
+    if two:
+      w._push_receive_data(b[:5]); w._push_receive_data(b[5:])
+    else:
+      w._push_receive_data(b)
   ctx.check('connection stays open', not w.closed and not w._shutdown_send)
   ctx.check('all request bytes consumed', len(w.receive_buf) == 0)
   # ---- decode what the switch wrote
